@@ -45,7 +45,7 @@ def _drive_stream(stream, reader=None, sector=512):
         stream.seek(0)
         out += len(stream.read(A))
         return out
-    for pos in (0, max(0, (S // 2) // 4096 * 4096 - 512), max(0, S - 1)):
+    for pos in (0, max(0, (S // 2) // 4096 * 4096 - 512), max(0, S - A - 600), max(0, S - 1)):
         stream.seek(pos)
         out += len(stream.read(A))
     if reader is not None:
@@ -190,6 +190,9 @@ def _seeds():
     st3, sl3 = ["N", "C", "Z"], [1, None, None]
     add("qcow2.std", BQ.build(st3, sl3, 9, 3)[0], drv_qcow2)
     add("qcow2.v2", BQ.build(["N", "U", "C"], [0, None, None], 12, 2)[0], drv_qcow2)
+    # the window straddles an L2-table boundary and the disk ends at the end of the second table's first clusters:
+    # the driver's reads at the middle and the end touch the last slot of an L2 table
+    add("qcow2.l2-boundary", BQ.build(["N", "C", "N", "Z"], [1, None, 0, None], 9, 3, None, 62, 66)[0], drv_qcow2)
     add("qcow2.extl2", BQ.build([{"kind": "N", "sub": ["a", "u", "z"] * 10 + ["a", "a"]}, {"kind": "U", "sub": ["u"] * 31 + ["z"]}],
                                 [1, None], 14, 3, ext=True)[0], drv_qcow2)
     add("qcow2.backing", BQ.build(["N", "U"], [0, None], 12, 3, backing_name="b.img", backing_format="raw")[0], drv_qcow2, backing=True)
